@@ -12,19 +12,28 @@ from .ops_nf import frame_view
 from .ops_array import df_of_row
 
 
+def summaries(arr, rows):
+    """the summary views of one nested array (what memoising them would keep) next to what the rows say"""
+    lens = [int(x) for x in arr.list_lengths]
+    from_rows = [0 if r is None else (len(r[0][1]) if r else 0) for r in rows]
+    return {"list_lengths": lens, "flat_length": int(arr.flat_length), "agree_with_rows": lens == from_rows and int(arr.flat_length) == sum(from_rows)}
+
+
 def snap(obj):
     if isinstance(obj, NestedFrame) or (isinstance(obj, pd.DataFrame) and any(isinstance(t, NestedDtype) for t in obj.dtypes)):
         v = frame_view(obj)
         v["dtypes"] = [str(t) for t in obj.dtypes]
         v["index_name"] = obj.index.name
+        v["summaries"] = {c[0]: summaries(obj[c[0]].array, c[2]["rows"]) for c in v["cols"] if c[1] == "nest"}
         return v
     if isinstance(obj, pd.DataFrame):
         return {"flat": {"index": export.labels(obj.index),
                          "cols": [[str(c), str(obj[c].dtype), [repr(v) for v in obj[c].tolist()]] for c in obj.columns]},
                 "dtypes": [str(t) for t in obj.dtypes], "index_name": obj.index.name}
     if isinstance(obj, pd.Series) and isinstance(obj.dtype, NestedDtype):
-        return {"index": export.labels(obj.index), "name": obj.name, "rows": weak_rows(export.rows_view(obj.array)), "dtype": str(obj.dtype),
-                "index_name": obj.index.name}
+        rows = weak_rows(export.rows_view(obj.array))
+        return {"index": export.labels(obj.index), "name": obj.name, "rows": rows, "dtype": str(obj.dtype),
+                "index_name": obj.index.name, "summaries": {"self": summaries(obj.array, rows)}}
     if isinstance(obj, pd.Series):
         return {"index": export.labels(obj.index), "name": obj.name, "vals": [repr(v) for v in obj.tolist()], "dtype": str(obj.dtype),
                 "index_name": obj.index.name}
@@ -293,6 +302,10 @@ def run_family(ctx, steps):
         after = {k: snap(v) for k, v in fam.items() if k in before}
         changed = sorted(k for k in before if after[k] != before[k])
         unexpected = [k for k in changed if k not in may_change]
+        # every member's summary views (row lengths, number of records) still describe ITS OWN rows — also the member
+        # that was changed, and whichever of two related objects is asked first
+        unexpected += [f"{k}:summaries_disagree_with_rows" for k, v in after.items() if isinstance(v, dict)
+                       and any(not sm["agree_with_rows"] for sm in v.get("summaries", {}).values())]
         ctx.case(f"family.{desc.get('kind')}.{desc.get('op')}", {"history": list(hist)},
                  {"ok": {"changed": changed, "unexpected": unexpected}}, None, {"ok": {"unexpected": []}},
                  features=(desc.get("kind"), str(desc.get("op")), f"target={desc.get('target')}"),
